@@ -84,7 +84,8 @@ def make_array(ac, n, p, start, seed):
                 for i in range(n)]
         arg = np.array(vals) if ac == "np_str" else (np.array(vals, dtype=object) if ac == "np_obj_str" else vals)
         return arg, ["s:" + v for v in vals], {"object"}, "cooked"
-    if ac in ("np_datetime64_us", "np_datetime64_ns", "list_datetime", "np_obj_datetime", "list_datetime64"):
+    if ac in ("np_datetime64_us", "np_datetime64_ns", "list_datetime", "np_obj_datetime", "list_datetime64",
+              "list_datetime_tz"):
         SECS = [1600000000, -2500000000, 0, 86399, -2082844801]       # two of them lie before 1904
         us = [SECS[(start + i) % 5] * 10 ** 6 + 3600 * 10 ** 6 * i + US[(start + i) % len(US)] for i in range(n)]
         exp = [struct.pack("<q", v).hex() for v in us]
@@ -103,6 +104,11 @@ def make_array(ac, n, p, start, seed):
             us = [abs(v) % (4 * 10 ** 15) for v in us]
             exp = [struct.pack("<q", v).hex() for v in us]
             arg = [datetime(1970, 1, 1) + (np.timedelta64(v, "us").astype(object)) for v in us]
+            if ac == "list_datetime_tz":
+                # the same instants, told in a time zone two and a half hours ahead of UTC
+                from datetime import timezone, timedelta
+                tz = timezone(timedelta(hours=2, minutes=30))
+                arg = [(a_.replace(tzinfo=timezone.utc)).astimezone(tz) for a_ in arg]
             if ac == "np_obj_datetime":
                 arg = np.array(arg, dtype=object)
         return arg, exp, {"datetime64[us]"}, "cooked"
@@ -147,6 +153,11 @@ def make_value(vc, seed):
     if vc == "str_empty":
         return "", "s:", "cooked"
     us = 1614834367004146 + (seed % 7) * 4146
+    if vc == "datetime_tz":
+        from datetime import timezone, timedelta
+        naive = datetime(1970, 1, 1) + (np.timedelta64(us, "us").astype(object))
+        aware = naive.replace(tzinfo=timezone.utc).astimezone(timezone(timedelta(hours=-7)))
+        return aware, "dt:%d" % us, "cooked"
     if vc == "datetime":
         return datetime(1970, 1, 1) + np.timedelta64(us, "us").astype(object), "dt:%d" % us, "cooked"
     if vc == "datetime64_us":
@@ -274,6 +285,18 @@ def run_program(rec, seed, target="stream", index=False, version=4712):
                     else:
                         bad.append(ChannelObject(nms[0], nms[1], make_array(cls[pth], 2, pth, 0, seed)[0]))
                 gname = next((ob.group for ob in bad if isinstance(ob, (ChannelObject, GroupObject))), "g1")
+                before = _size(target, path, buf, writer)
+                if call["kind"] == "list_beyond_inferred_type":
+                    # a list whose values do not fit the type its extremes suggest (int8 for [-1, 200]): refused when
+                    # the ChannelObject is built
+                    try:
+                        bad.append(ChannelObject(gname, "refused", [[-1, 200], [-5, 40000], [-1, 3000000000]][nwrites % 3]))
+                        writer.write_segment(bad)
+                        refused.append("accepted:" + call["kind"])
+                    except Exception:  # noqa
+                        if _size(target, path, buf, writer) != before:
+                            refused.append("left-bytes:" + call["kind"])
+                    continue
                 if call["kind"] == "bad_property_value":
                     bad.append(ChannelObject(gname, "refused", np.zeros(1), {"bad": None}))
                 elif call["kind"] == "unsupported_dtype":
